@@ -322,7 +322,8 @@ class Expr:
         return bool(cname) and (cname == 'Converter' or self.idx.is_subclass(cname, 'Converter'))
 
     def is_property(self, fi) -> bool:
-        return any((isinstance(d, ast.Name) and d.id == 'property') for d in fi.node.decorator_list)
+        return any((isinstance(d, ast.Name) and d.id in ('property', 'cached_property'))
+                   or (isinstance(d, ast.Attribute) and d.attr in ('cached_property', 'property')) for d in fi.node.decorator_list)
 
     # ---- operators ------------------------------------------------------------------
     bool_ctx = 0
